@@ -1,11 +1,18 @@
 """C01 - a chain never returns a stale or foreign result."""
 from ..core import Prop
 from ..suites_hist import Histories
+from .c04 import DataKinds
+
+
+class StoredValues(DataKinds):
+    """every persisting data class: what a later chain / a later process loads is the value that was computed
+    (also for results of many parts: more than ten arrays, hundreds of generated items)"""
+    name = 'stored_values_of_every_data_class'
 
 
 class C01(Prop):
     pid = 'C01'
-    suites = [Histories()]
+    suites = [Histories(), StoredValues()]
     trusted_base = ['the reference evaluator (harness/tcv/gen_pipeline.ref_value) and the frozen scheme renderer used by the oracle']
     assumptions = ['task computations are deterministic functions of their persisted parameters and inputs',
                    'location_determines_denotation (discharged by C03 under the no-collision hypothesis on SHA-256) and '
